@@ -128,8 +128,11 @@ def oracle(c, st):
         if l2 > 0:
             t = sum(a * b for a, b in zip(delta, d)) / l2
             mags = mag_pt(m, x[:3])
+            slack = [TOL * (1 + g) for g in mags]                       # rounding of the returned origin, per coordinate
+            tslack = sum(sl * abs(dv) for sl, dv in zip(slack, d)) / l2    # its effect on the parameter along the ray
             off = [dl - t * dv for dl, dv in zip(delta, d)]
-            if t < -TOL or any(abs(a) > TOL * (1 + g) for a, g in zip(off, mags)): return ('C06:ray-origin', 'ray origin not on the image line ahead of the image origin')
+            if t < -tslack or any(abs(a) > sl + abs(dv) * tslack for a, sl, dv in zip(off, slack, d)):
+                return ('C06:ray-origin', 'ray origin not on the image line ahead of the image origin')
     elif op in (8, 9):
         m = E if op == 8 else I
         lo = [min(x[k], x[3 + k]) for k in range(3)]; hi = [max(x[k], x[3 + k]) for k in range(3)]
